@@ -152,7 +152,16 @@ func G2XTooLarge(r Rand) []byte {
 
 // ScalarTooLarge returns a 32-byte big-endian scalar >= r.
 func ScalarTooLarge(r Rand) []byte {
-	x := new(big.Int).Add(R, big.NewInt(int64(r.Bytes(1)[0])))
+	b := int64(r.Bytes(1)[0])
+	x := new(big.Int).Add(R, big.NewInt(b))
+	switch {
+	case b < 32: // exactly r
+		x.Set(R)
+	case b < 64: // the largest 32-byte value
+		x.Lsh(one, 256).Sub(x, one)
+	case b < 96: // 2r-1: still below 2^256, reduces to r-1
+		x.Lsh(R, 1).Sub(x, one)
+	}
 	out := make([]byte, 32)
 	x.FillBytes(out)
 	return out
